@@ -225,7 +225,7 @@ pub fn run(tier: Tier) -> Report {
         .enumerate()
         .flat_map_iter(|(i, it)| {
             let pr = print_program(&it.program);
-            let nvar = if it.family == "scenario-permutations" { 6 } else { 2 };
+            let nvar = if it.family == "scenario-permutations" { 7 } else { 2 };
             let vars = doc_variants(&pr, 6);
             let mut out = vec![];
             for k in 0..nvar {
